@@ -10,10 +10,11 @@ use ast_grep_core::language::Language;
 use schemars::JsonSchema;
 use serde::{Deserialize, Serialize};
 
-#[cfg(feature = "verif-hooks")]
-use crate::verif_hooks::SMap as HashMap;
 #[cfg(not(feature = "verif-hooks"))]
 use std::collections::HashMap;
+
+#[cfg(feature = "verif-hooks")]
+use crate::verif_hooks::SMap as HashMap;
 
 #[derive(Serialize, Deserialize, Clone, JsonSchema)]
 pub struct SerializableGlobalRule<L: Language> {
